@@ -261,7 +261,7 @@ def generate(seed, tier, opts):
         nodes = [s.system.name for s in g._subsystems_allprocs.values()]
         case["nodes"] = nodes
         case["use_aitken"] = rng.random() < 0.7
-        nf = rng.randint(2, 8)
+        nf = rng.randint(2, 8) if tier != "thorough" else rng.choice([rng.randint(2, 8), rng.randint(6, 20)])
         pfault = rng.uniform(0.2, 0.6)
         enabled = [a for a in faults.SCHED_ACTIONS[1:] if rng.random() < 0.75] or ["stale"]
         sched = []
@@ -302,7 +302,7 @@ def generate(seed, tier, opts):
         # solver pair and converge again)
         ops = []
         prev = None
-        for v in range(rng.randint(2, 5)):
+        for v in range(rng.randint(2, 5) if tier != "thorough" else rng.randint(2, 9)):
             cands = [i for i in range(npts) if i != prev] or [0]
             k = rng.choice(cands) if rng.random() < 0.8 else rng.randrange(npts)
             prev = k
